@@ -61,6 +61,14 @@ class _Fn:
         return sum(args) * w / len(args)
 
     @staticmethod
+    def kws(*args, **kw):
+        acc = 0.0
+        for i, v in enumerate(kw.values()):
+            _guard_mul(v, i + 1)
+            acc = acc * 0.5 + v * (i + 1)
+        return acc + sum(args)
+
+    @staticmethod
     def tot(c):
         if isinstance(c, dict):                       # ObjS is a dict too
             return sum([_Fn.tot(v) for v in c.values()])
